@@ -1169,7 +1169,7 @@ pub fn rec_expiry(args: &Args) {
     let mut mid = 0u16;
     let mut next_mid = || { mid = mid.wrapping_add(1); mid };
     // retention: one hour expiry, N intervening requests on other keys
-    for n in if thorough { vec![1usize, 2, 10, 100, 500, 2000] } else { vec![1usize, 7, 300] } {
+    for n in if thorough { vec![1usize, 2, 10, 100, 500, 2000] } else { vec![1usize, 7, 300, 1100] } {
         let mut h = H::new(&mut out, 1152, 3_600_000, start);
         let tag = json!({"kind": "retention", "n": n});
         let body = body_bytes(100, 5);
